@@ -145,6 +145,7 @@ class BaseMove(Generic[OperationType, ContextType]):
                 "operation": self.operation.to_dict(),
                 "apply_constraints": self.apply_constraints,
             },
+            "attributes": {"max_attempts": self.max_attempts},
         }
 
     @classmethod
